@@ -122,7 +122,9 @@ def nontrivial(case):
 
 
 def classify(case):
-    labs = ["kind:" + case["kind"], "ploidy:%d" % case["ploidy"], "par:" + str(case["par"])]
+    from vk import gen
+
+    labs = ["kind:" + case["kind"], "ploidy:%d" % case["ploidy"], "par:" + str(case["par"]), gen.index_label(gen.spec_for(case))]
     p = case.get("purity")
     labs.append("purity:" + ("none" if p is None else "1" if p == 1.0 else "<1e-3" if p < 1e-3 else ">0.99" if p > 0.99 else "mid"))
     if case["kind"] == "nonneg":
@@ -152,6 +154,9 @@ def _build(rows_spec, case):
     df = pd.DataFrame.from_records([r[:7] for r in recs],
                                    columns=["chromosome", "start", "end", "gene", "log2", "probes", "weight"])
     # an autosome row always leads, so naming detection sees the chosen style
+    from vk import gen
+
+    gen.relabel(df, gen.spec_for(case))
     return CopyNumArray(df, {"sample_id": "s"}), [r[7] for r in recs], idx
 
 
